@@ -29,9 +29,9 @@
 (* deviating leaves are named KD_<key> below; MC_NsFixup checks that they are the only ones.      *)
 (* State of the code transcribed: /repo with the eleven repairs of /verif/fixes/C14-*.patch        *)
 (* applied (shadowed prefixes, skipped declarations, xmlns / xml / undeclared prefixes,             *)
-(* namespace="", xmlns="" as literal attribute, alias on xsl:attribute, copied attributes, pending  *)
-(* attributes looked up by expanded name, xsl:attribute never re-declares a prefix that is bound to *)
-(* another namespace); one deviation class remains (staleExcludedPrefix).                          *)
+(* namespace="", xmlns="" as literal attribute, alias on xsl:attribute, copied attributes,          *)
+(* xsl:attribute never re-declares a prefix that is bound to another namespace); two deviation      *)
+(* classes remain (staleExcludedPrefix, attrListKeyedByQName).                                      *)
 (* Not transcribed (never generated): invalid QNames, xsl:attribute after a child node, copying   *)
 (* namespace nodes selected with the namespace axis, extension namespaces, imports.               *)
 EXTENDS ResultTree
@@ -66,6 +66,8 @@ PrefixForNs(S, u) == LET d == Decls(S)
                      IN IF f # Null /\ NsForPrefix(S, f) # u THEN Null ELSE f
 PresentLocal(S, p) == S.stk # <<>> /\ \E i \in 1..Len(S.stk[Len(S.stk)]) : S.stk[Len(S.stk)][i][1] = p
 AddDecl(S, p, u) == [S EXCEPT !.stk[Len(S.stk)] = Append(@, <<p, u>>)]
+(* what a parser will make of prefix p on the pending start tag, as far as declared by now *)
+BoundUri(S, p) == IF p = "" THEN "" ELSE IF p = "xml" THEN XMLNS ELSE LET d == Decls(S) IN FindBack(d, Len(d), p, 1)
 
 (* AttributeListImpl::addAttribute: same QName string -> the value is replaced in place *)
 PutAttr(S, p, l, v) ==
@@ -73,13 +75,14 @@ PutAttr(S, p, l, v) ==
   IN IF hit # {} THEN [S EXCEPT !.pa[CHOOSE i \in hit : TRUE].v = v]
      ELSE [S EXCEPT !.pa = Append(@, [p |-> p, l |-> l, v |-> v])]
 
-(* addResultAttribute, ordinary attribute with a prefix: the first pending attribute with the same *)
-(* local name whose prefix resolves (getResultNamespaceForPrefix, as declared by now) to the same   *)
-(* namespace as p does - that one's value is replaced (XSLT 7.1.3: same expanded name); 0 = none    *)
-SameExpandedName(S, p, l) ==
-  LET ns  == NsForPrefix(S, p)
-      hit == {i \in 1..Len(S.pa) : S.pa[i].p # "" /\ S.pa[i].l = l /\ NsForPrefix(S, S.pa[i].p) = ns}
-  IN IF p = "" \/ ns = Null \/ hit = {} THEN 0 ELSE CHOOSE i \in hit : \A j \in hit : i <= j
+(* KD_attrListKeyedByQName: an attribute with the same expanded name but another QName is already  *)
+(* pending; the new one is appended instead of replacing it (two constructors, one expanded name).  *)
+(* (A repair that looked the expanded name up at this point - 62f6d93 - was withdrawn: the prefix   *)
+(* of a pending COPIED attribute is declared only afterwards, so the look-up merged attributes of   *)
+(* different namespaces; the thorough conformance run rejected it.)                                  *)
+KD_attrListKeyedByQName(S, p, l) ==
+  \E i \in 1..Len(S.pa) : /\ ~IsDecl(S.pa[i]) /\ S.pa[i].l = l /\ S.pa[i].p # p
+                          /\ BoundUri(S, p) # Null /\ BoundUri(S, S.pa[i].p) = BoundUri(S, p)
 
 (* XSLTEngineImpl::addResultAttribute *)
 AddResultAttr(S, p, l, v, fromCopy) ==
@@ -96,7 +99,7 @@ AddResultAttr(S, p, l, v, fromCopy) ==
     IN IF ns = Null THEN PutAttr(AddDecl(S, l, v), p, l, v)
        ELSE IF ns # v THEN IF ~fromCopy THEN PutAttr(AddDecl(S, l, v), p, l, v) ELSE [S EXCEPT !.err = TRUE]
        ELSE S
-  ELSE LET k == SameExpandedName(S, p, l) IN PutAttr(S, IF k = 0 THEN p ELSE S.pa[k].p, l, v)
+  ELSE PutAttr(IF KD_attrListKeyedByQName(S, p, l) THEN Tag(S, "attrListKeyedByQName") ELSE S, p, l, v)
 
 AddNsAttr(S, prefix, uri) == IF prefix = "" THEN AddResultAttr(S, "", "xmlns", uri, FALSE) ELSE AddResultAttr(S, "xmlns", prefix, uri, FALSE)
 
@@ -403,9 +406,10 @@ Run(ss, src) ==
 (* that explains it is a defect of the algorithm (MC_NsFixup) / of the code (triage in c14.py)     *)
 NotWF == {"serialised-result-not-wellformed"}
 KDFaults(t) ==
-  CASE t = "staleExcludedPrefix"          -> {"element-name", "default-namespace-leak", "attribute-name", "attribute-value", "duplicate-expanded-attribute-name",
+  CASE t = "attrListKeyedByQName"         -> {"duplicate-expanded-attribute-name", "attribute-value", "attribute-name"} \cup NotWF
+    [] t = "staleExcludedPrefix"          -> {"element-name", "default-namespace-leak", "attribute-name", "attribute-value", "duplicate-expanded-attribute-name",
                                               "excluded-namespace-declared", "alias-stylesheet-namespace-declared"} \cup NotWF
     [] OTHER -> {}
-KDTags == {"staleExcludedPrefix"}
+KDTags == {"staleExcludedPrefix", "attrListKeyedByQName"}
 Explained(tags) == UNION {KDFaults(t) : t \in tags}
 =============================================================================
